@@ -30,6 +30,7 @@ def main():
     out = {}
     strategies = {
         "default": lambda: DefaultClustering(max_weight=8.0),
+        "default-sampled": lambda: DefaultClustering(max_weight=8.0, sample_size=60),     # 7 columns x 320 rows: the measures are taken on a 60-row sample of the forest
         "main-name": lambda: DefaultClustering(main_column="delta", max_weight=8.0),
         "main-index-0": lambda: DefaultClustering(main_column=0, max_weight=8.0),
         "ml-target": lambda: MlClustering(target_column="b", max_weight=4.0),
